@@ -51,6 +51,10 @@ def one(src):
         name = f"{prop}-k{mk[1:]}"
     elif "/out11/" in src:
         name = f"{prop}-j{mk[1:]}"
+    elif "/out12/" in src:
+        name = f"{prop}-h{mk[1:]}"
+    elif "/out13/" in src:
+        name = f"{prop}-g{mk[1:]}"
     wt = f"/tmp/seedchk/{name}"
     os.makedirs("/tmp/seedchk", exist_ok=True)
     subprocess.run(f"git -C /repo worktree remove --force {wt}", shell=True, capture_output=True)
